@@ -10,6 +10,9 @@ The theorems quantify over all states / all reachable states / all availability 
 -/
 import Teleport.Lemmas.Redial
 import Teleport.Lemmas.RedialLock
+import Teleport.Lemmas.RedialTie
+import Teleport.Gen.Transitions
+import Teleport.Gen.Redial
 namespace Teleport
 namespace C13
 open Teleport.Redial
@@ -309,6 +312,261 @@ theorem C13_later_calls_succeed_witness :
          .th 0, .th 0, .th 0, .th 0, .th 0] = some t ∧
       t.calls[0]? = some ⟨1, true, some 0⟩ ∧ t.calls[1]? = some ⟨1, false, some 102⟩ ∧
       t.env = ⟨[], .up⟩ ∧ 1 ∈ t.dead ∧ t.redials = [0] := by decide
+
+/-! ## Tie A: `Model/Redial` against the regenerated facts of the redial code
+
+`Gen/Transitions.lean` and `Gen/Redial.lean` are regenerated from the Go sources on every run. Each
+theorem below starts with the `…_missing = []` conjuncts and compares an extracted flow / behaviour
+table with what RUNNING the model gives (vocabulary: `Lemmas/RedialTie.lean`, `Lemmas/SrcFlow.lean`). -/
+section TieA
+open SrcFlow RedialTie
+
+/-- the statuses from which `redialForClient` starts a redial according to the model, in iota order. -/
+def entryFrom : List Status := allStatus.filter casFrom
+
+/-- the status constants sorted by name: the order in which a `cas:` trace entry lists its from-statuses. -/
+def statusByName : List Status :=
+  [.activeClosed, .activeClosing, .ok, .passiveClosed, .passiveClosing, .preparing, .redialFailed, .redialing]
+
+def entryCas (won : Bool) : String :=
+  "cas:" ++ casName .redialing (statusByName.filter casFrom) ++ (if won then ":won" else ":lost")
+
+/-- one row of the behaviour table of `redialForClient`, from the model: a session without redial
+    function never reaches the lock; otherwise lock, connection check, and what `redialLocked` does
+    (`entryModel`); the closure starts in the status `roundStart` leaves. -/
+def entryRow (enabled : Bool) (st : Status) (same verdict : Bool) : String × List Bool × List String × Bool :=
+  if !enabled then (goName st, [enabled, same, verdict], [], false)
+  else if entryModel st same == "true" then (goName st, [enabled, same, verdict], ["lock", "getConn", "unlock"], true)
+  else if entryModel st same == "closure" then
+    (goName st, [enabled, same, verdict],
+      ["lock", "getConn", entryCas true, "closure@" ++ goName (roundStart (entryProbe st same)).status, "unlock"], verdict)
+  else if entryModel st same == "false" then (goName st, [enabled, same, verdict], ["lock", "getConn", entryCas false, "unlock"], false)
+  else (goName st, [enabled, same, verdict], ["?"], false)
+
+def pcOf (s : State) (i : Nat) : Option Pc := (s.threads[i]?).map Thread.pc
+
+/-- a session WITHOUT redial function whose pusher's write hit the closed socket. -/
+def noRedialProbe : State := { writeProbe .ok false true false with budget := 0 }
+
+/-- the regenerated flow of `session.redialForClient`. -/
+def entryFlow : List SrcFlow.Ev := Gen.flow_session_redialForClient
+
+/-- a pusher that found connection 0 dead (EOF) and stands before the lock of `redialForClient`. -/
+def lockProbe : Option State := run (State.init 1 true) [.lose 0, .push, .th 1, .th 1]
+
+/-- **`redialForClient` is the model's `xLock` / `xLocked` (tie A).** `srcfacts` EXECUTES
+    `session.redialForClient` (small interpreter, fail closed) for a session without redial function
+    and, with one, for every status × (the caller's connection is still the session's / was already
+    replaced): the regenerated table of (trace, result) is what the model gives, row by row — no lock
+    and `false` without redial function (the model's writer and reader do not enter `xLock` then);
+    otherwise `s.lock` first, THEN the connection check; `true` with nothing touched when the
+    connection was already replaced (the early return before the compare-and-swap: the single-redial
+    argument of `C13_single_redial`); the compare-and-swap to Redialing, won exactly from the
+    statuses of `Redial.casFrom`; the closure called only after a won compare-and-swap, in status
+    Redialing, its verdict returned; `false` after a lost one; the unlock last on every path
+    (`C13_lock_mutex`). In the regenerated flow of the function `s.lock.Lock()` is the first statement
+    of interest — before it only a `return false` — and `Unlock` is deferred, as the model's thread
+    is blocked while `lock` is set, sets it, runs the whole body in one step and clears it. The
+    closure is called nowhere else and only with the lock held. -/
+theorem C13_redial_entry_tie :
+    Gen.transitions_missing = [] ∧
+    keys (mainFlow entryFlow) =
+      ["lock:lock.Lock", "cas:" ++ casName .redialing entryFrom, "call:redialForClientLocked"] ∧
+    ((entryFlow.filter SrcFlow.Ev.inClosure).map fun e => (e.key, e.guards)) = [("lock:lock.Unlock", ["defer{"])] ∧
+    ((upto (fun e => e.is "lock" "lock.Lock") entryFlow).map fun l => l.map fun e => (e.key, e.x)) = some [("return:", "false")] ∧
+    (lockProbe.bind fun s => threadStep { s with lock := true } 1) = none ∧
+    ((lockProbe.bind fun s => threadStep s 1).map fun t => (t.lock, pcOf t 1)) = some (true, some (.xLocked 0)) ∧
+    ((lockProbe.bind fun s => (threadStep s 1).bind fun t => threadStep t 1).map fun t => (t.lock, t.redials)) = some (false, [0]) ∧
+    Gen.redial_missing = [] ∧
+    Gen.redial_entry_table = [entryRow false .ok true true] ++
+      (allStatus.flatMap fun st => [true, false].map fun same => entryRow true st same true) ++ [entryRow true .ok true false] ∧
+    pcAfter noRedialProbe 1 = some (.wDone 102) ∧
+    (allStatus.map fun st => entryModel st true) = allStatus.map (fun st => if casFrom st then "closure" else "false") ∧
+    (allStatus.all fun st => entryModel st false == "true") = true ∧
+    ((entryFlow.filter fun e => e.is "call" "redialForClientLocked").map fun e => e.use) = ["returned"] ∧
+    (Gen.lock_held_calls.filter fun r => r.1 == "redialForClientLocked") =
+      [("redialForClientLocked", "session.redialForClient", "lock-held")] := by
+  repeat' apply And.intro
+  all_goals decide
+
+/-- non-vacuity: the model's from-list, spelled out. -/
+example : entryFrom = [.ok, .passiveClosing, .passiveClosed, .redialFailed] := by decide
+
+/-- **The model's redial step is a sequence of primitive effects** — for every state whose status the
+    compare-and-swap accepts, `redialLocked` equals: per dial attempt the effects `attemptOps`
+    (nothing when the dial fails; reset, id, Preparing, dial hook when it succeeds; then close and
+    Redialing when the hook fails), then `successOps` (close the old connection, Ok, reader, index) or
+    `failedOps` (`closeLocked`, compare-and-swap to RedialFailed), in THIS order. `C13_redial_effect_order`
+    compares exactly these sequences with the statements of the function literal in peer.go. -/
+theorem C13_redial_effects_are_model (s : State) (h1 : casFrom s.status = true) :
+    redialLocked s s.conn =
+      match (dialRound s.budget s.env).fin with
+      | .success => ({ runOps (ctxOf s) (roundOps s) successOps with redials := (roundOps s).redials ++ [s.conn] }, some true)
+      | .failed => (runOps (ctxOf s) (roundOps s) failedOps, some false)
+      | .hang => (roundOps s, none) :=
+  redialLocked_as_ops s h1
+
+example : casFrom (State.init 2 false).status = true ∧
+    (dialRound 2 ⟨[.hookFail, .up], .down⟩).tried = [.hookFail, .up] ∧ (dialRound 2 ⟨[.hookFail, .up], .down⟩).fin = .success := by decide
+
+/-- the regenerated flow of the function literal that `peer.Dial` stores in `redialForClientLocked`. -/
+def closureFlow : List SrcFlow.Ev := Gen.redial_flow_closure
+/-- its inner literal: the callback handed to `dialWithRetry`. -/
+def cbFlow : List SrcFlow.Ev := closureFlow.filter fun e => e.guards.contains "fn:dialWithRetry"
+def cbFail : String := "!postDial().OK()"
+def dialFail : String := "% != nil"
+def idSame : String := "was(sess.LocalAddr().String()) == was(sess.ID())"
+
+/-- a session that lost connection 0; the first new connection dies in the dial hook, the second holds. -/
+def effProbe : State := { State.init 2 false with env := ⟨[.hookFail, .up], .down⟩, dead := [0] }
+/-- the same with a server that stays down: the budget is used up. -/
+def effProbeDown : State := { State.init 1 false with env := ⟨[], .down⟩, dead := [0] }
+
+/-- **The redial closure performs the model's effects in the model's order (tie A).** The regenerated
+    flow of the literal (walked with `socket.Reset`, `socket.SetID`, `getConn` as named calls):
+    the callback's statements are `attemptOps .hookFail` — Reset, SetID, store Preparing, `postDial`,
+    then under the failing hook `conn.Close()`, store Redialing — and the ones NOT under the failing
+    hook are `attemptOps .up`; the id rule is the model's (`SetID` of the NEW local address when the
+    old id was the old address, else the id captured before the dial); the callback fails iff the
+    hook fails. Around it: the old connection is captured before `dialWithRetry`; under a failed
+    round `closeLocked`, compare-and-swap RedialFailed←Redialing, `return false` = `failedOps`;
+    otherwise close the captured connection, store Ok, spawn the reader, `sessHub.set`,
+    `return true` = `successOps`. Two concrete runs of `redialLocked` (hook failure then success;
+    budget used up) are these sequences executed. Reordering two statements, dropping one, storing
+    another status or moving one across the failure test changes the regenerated flow and this
+    theorem no longer checks. -/
+theorem C13_redial_effect_order :
+    Gen.redial_missing = [] ∧
+    dedup (keys cbFlow) = (attemptOps .hookFail).map opKey ∧
+    keys (cbFlow.filter fun e => e.guards.contains cbFail) = ((attemptOps .hookFail).drop (attemptOps .up).length).map opKey ∧
+    dedup (keys (cbFlow.filter fun e => !e.guards.contains cbFail)) = (attemptOps .up).map opKey ∧
+    attemptOps .down = [] ∧
+    ((cbFlow.filter fun e => e.is "call" "socket.SetID").map fun e => (e.x, e.guards.drop 2)) =
+      [("sess.LocalAddr().String()", [idSame]), ("was(sess.ID())", ["!(" ++ idSame ++ ")"])] ∧
+    (runOps ⟨true, .addr 0, 0⟩ (State.init 1 false) (attemptOps .up)).id = .addr 1 ∧
+    (runOps ⟨false, .user, 0⟩ (State.init 1 false) (attemptOps .up)).id = .user ∧
+    ((cbFlow.filter fun e => e.kind == "return").map fun e => (e.x, e.guards.contains cbFail)) =
+      [("postDial().Cause()", true), ("nil", false)] ∧
+    ((cbFlow.filter fun e => e.is "stage" "postDial").map fun e => e.use) = ["fail-return"] ∧
+    keys (mainFlow closureFlow) = ["load:getConn", "call:dialWithRetry"] ++ failedOps.map opKey ++ successOps.map opKey ∧
+    keys ((mainFlow closureFlow).filter fun e => e.guards == [dialFail]) = failedOps.map opKey ∧
+    (((mainFlow closureFlow).filter fun e => e.kind == "return").map fun e => (e.x, e.guards)) = [("false", [dialFail]), ("true", [])] ∧
+    ((after (fun e => e.kind == "return") (mainFlow closureFlow)).map fun l => l.map fun e => (e.key, e.guards)) =
+      some ((successOps.map fun o => (opKey o, if o = .oldClose then ["was(sess.getConn()) != nil"] else [])) ++ [("return:", [])]) ∧
+    ((mainFlow closureFlow).filter fun e => e.is "call" "%.Close").map (fun e => e.x) = ["was(sess.getConn())"] ∧
+    redialLocked effProbe 0 =
+      ({ runOps (ctxOf effProbe) (runOps (ctxOf effProbe) (roundStart effProbe) (attemptOps .hookFail ++ attemptOps .up)) successOps with redials := [0] }, some true) ∧
+    redialLocked effProbeDown 0 =
+      (runOps (ctxOf effProbeDown) (roundStart effProbeDown) (attemptOps .down ++ attemptOps .down ++ failedOps), some false) := by
+  decide
+
+/-- non-vacuity: the three sequences, as source statements. -/
+example : (attemptOps .hookFail).map opKey = ["call:socket.Reset", "call:socket.SetID", "store:statusPreparing", "stage:postDial",
+    "call:%.Close", "store:statusRedialing"] ∧
+    successOps.map opKey = ["call:%.Close", "store:statusOk", "spawn:startReadAndHandle", "call:sessHub.set"] ∧
+    failedOps.map opKey = ["call:closeLocked", "cas:statusRedialFailed<-statusRedialing"] := by decide
+
+def availCode : Avail → Nat
+  | .up => 0 | .down => 1 | .hookFail => 2
+def endCode : RoundEnd → Nat
+  | .success => 0 | .failed => 1 | .hang => 2
+def allAvail : List Avail := [.up, .down, .hookFail]
+/-- every availability queue of length ≤ 2, shortest first. -/
+def tieQueues : List (List Avail) :=
+  [[]] ++ allAvail.map (fun a => [a]) ++ allAvail.flatMap fun a => allAvail.map fun b => [a, b]
+def tieBudgets : List Int := [0, 1, 2, -1]
+/-- one row of the behaviour table of `dialWithRetry`, computed by the model's `dialRound`. -/
+def roundRow (b : Int) (q : List Avail) (st : Avail) : Int × List Nat × Nat × List Nat × Nat × Nat :=
+  ((b, q.map availCode, availCode st, (dialRound b ⟨q, st⟩).tried.map availCode,
+    endCode (dialRound b ⟨q, st⟩).fin, (dialRound b ⟨q, st⟩).rest.q.length))
+
+/-- **`redialCounter.Next` and `dialWithRetry` behave like `counterNext` and `dialRound` (tie A).**
+    `srcfacts` EXECUTES the two Go functions (small interpreter, fail closed): `Next` for the counters
+    −2…3, and `dialWithRetry` — with `dialOne` and the callback scripted — for every budget in
+    {0, 1, 2, unlimited}, every availability queue of length ≤ 2 over {up, dial refused, hook
+    fails} and every availability afterwards. Row by row the regenerated tables are what the
+    model computes: the same attempts in the same order (first attempt outside the budget, then one
+    per `Next`), the callback run exactly for the attempts whose dial succeeded, the same ending
+    (newest connection / error / never returns), the same rest of the queue. On the executed code
+    itself: with a budget b ≥ 0 never more than b+1 attempts and never a hang (`C13_bounded`), the
+    bound is reached, and the unlimited budget with a dead server does not return
+    (`C13_unlimited_never_exhausts`). An off-by-one in `Next`, a lost first attempt, a counter that is
+    not fresh per round, a retry after success or a callback on a failed dial changes a row. -/
+theorem C13_retry_budget_tie :
+    Gen.redial_missing = [] ∧
+    Gen.redial_next_table = ([-2, -1, 0, 1, 2, 3] : List Int).map (fun t => (t, (counterNext t).1, (counterNext t).2)) ∧
+    Gen.redial_round_table = (tieBudgets.flatMap fun b => tieQueues.flatMap fun q => allAvail.map fun st => roundRow b q st) ∧
+    (Gen.redial_round_table.all fun r => decide (r.1 < 0) || (decide (r.2.2.2.1.length ≤ r.1.toNat + 1) && r.2.2.2.2.1 != 2)) = true ∧
+    (Gen.redial_round_table.any fun r => r.1 == 2 && r.2.2.2.1.length == 3 && r.2.2.2.2.1 == 1) = true ∧
+    (Gen.redial_round_table.any fun r => r.1 == -1 && r.2.2.2.2.1 == 2) = true ∧
+    Gen.redial_round_table.length = 156 := by
+  decide +kernel
+
+/-- a scripted situation of one writer: the session it starts in and the environment events that
+    happen just before each of its reads of (connection, status). -/
+structure RetryCase where
+  name : String
+  start : State
+  pre : List (List Redial.Ev)
+
+/-- the reader already handled the loss of connection 0 (socket closed, PassiveClosed, redial pending). -/
+def lostClosed : State := { State.init 3 false with status := .passiveClosed, dead := [0], sockClosed := true }
+
+def retryCases : List RetryCase := [
+  ⟨"sent", State.init 3 false, [[]]⟩,
+  ⟨"write-failed", State.init 3 false, [[.lose 0]]⟩,
+  ⟨"closed-redial-refused", State.init 3 true, [[.lose 0, .setEnv ⟨[], .down⟩]]⟩,
+  ⟨"closed-redial-ok", State.init 3 true, [[.lose 0], []]⟩,
+  ⟨"closed-twice", State.init 3 true, [[.lose 0], [.lose 1], []]⟩,
+  ⟨"closed-then-failed", lostClosed, [[], [.lose 1]]⟩]
+
+/-- the model's writer (entered by `.call` / `.push`) run alone through the situation. -/
+def retryTrace (enter : Redial.Ev) (post : String) (c : RetryCase) : List String :=
+  match step c.start enter with
+  | some s => wtrace 1 post 40 s c.pre 0 0
+  | none => ["?"]
+
+def isRedial (e : String) : Bool := e == "redial:1" || e == "redial:2" || e == "redial:?" || e == "redial:0"
+/-- every redial attempt directly follows a write. -/
+def redialsFollowWrites : List String → Bool
+  | a :: b :: r => (!isRedial b || a == "write") && redialsFollowWrites (b :: r)
+  | _ => true
+
+/-- **The write-retry of `AsyncCall` / `Push` is the model's writer (tie A).** (1) Error classes:
+    the statements of `session.write` after the socket write, executed by `srcfacts` for each class
+    of write error, return what the model's `wWrite` step assumes — nothing wrong: sent;
+    `io.EOF` (the model's `werrEOF`) and `socket.ErrProactivelyCloseSocket` (its `sockClosed`): the
+    connection-closed status, the only one that leads to a redial; any other error: write-failed
+    (code 104), no redial — and `write`'s refusal table (Gen/Transitions) for CALL and PUSH messages
+    is connection-closed exactly in the statuses where the model's writer goes to the redial. (2)
+    The retry: `AsyncCall` and `Push` executed from the statement that calls `s.write` to the end,
+    on six scripted situations, give the traces of the model's writer thread in the corresponding
+    situations: a redial attempt only after a write that returned connection-closed, exactly one
+    per such write, handed the connection that very write used, a new write after a successful
+    redial, `cmd.done()` / return without the post-write stage on every failure. -/
+theorem C13_write_retry_tie :
+    Gen.transitions_missing = [] ∧ Gen.redial_missing = [] ∧
+    Gen.redial_write_err_table =
+      [("nil", writeModel .ok true false false), ("io.EOF", writeModel .ok false false true),
+       ("socket.ErrProactivelyCloseSocket", writeModel .ok false true false), ("other", writeModel .ok false false false)] ∧
+    Gen.redial_write_err_table.map (·.2) = ["nil", "statConnClosed", "statConnClosed", "statWriteFailed.Copy()"] ∧
+    ((Gen.write_table.filter fun r => r.2.1 == "TypeCall" || r.2.1 == "TypePush").map fun r => (r.1, r.2.2)) =
+      (allStatus.flatMap fun st => [(goName st, writeModel st true false false == "statConnClosed"),
+                                   (goName st, writeModel st true false false == "statConnClosed")]) ∧
+    (allStatus.all fun st => st == .ok || writeModel st true false false == "statConnClosed") = true ∧
+    Gen.redial_retry_table =
+      ([("AsyncCall", Redial.Ev.call, "stage:postWriteCall"), ("Push", Redial.Ev.push, "stage:postWritePush")].flatMap fun f =>
+        retryCases.map fun c => (f.1, c.name, retryTrace f.2.1 f.2.2 c)) ∧
+    (Gen.redial_retry_table.all fun r => redialsFollowWrites r.2.2 && !(r.2.2.head?.any isRedial)) = true ∧
+    (Gen.redial_retry_table.any fun r => r.2.2.contains "redial:2") = true := by
+  decide
+
+/-- non-vacuity: two of the model's writer traces, spelled out. -/
+example : retryTrace .call "stage:postWriteCall" ⟨"closed-twice", State.init 3 true, [[.lose 0], [.lose 1], []]⟩ =
+    ["write", "redial:1", "write", "redial:2", "write", "stage:postWriteCall", "return"] ∧
+    retryTrace .push "stage:postWritePush" ⟨"write-failed", State.init 3 false, [[.lose 0]]⟩ = ["write", "return"] := by decide
+
+end TieA
 
 end C13
 end Teleport
